@@ -24,6 +24,7 @@ type Frame struct {
 	iter   map[*ssa.BasicBlock]int
 	// set on frames pushed by the panic unwinder for a deferred call
 	panicDefer bool
+	post       func(Value) Value // applied to the frame's result before it is delivered (model tail calls)
 }
 
 func (f *Frame) clone() *Frame {
